@@ -1,6 +1,7 @@
 import Replicon.Proofs.Server
 import Replicon.Proofs.JointAuth
 import Replicon.Proofs.Sync
+import Replicon.Proofs.ClientVals
 import Replicon.Proofs.ProtocolHash
 /-
 C07 — Unauthorized clients get no replication and only independent events.
@@ -101,5 +102,32 @@ theorem C07_history_complete_state (s0 : Server) (hw : s0.world = []) (hc0 : s0.
   have hk : e ∉ keys cl := by unfold keys; rw [hfresh]; simp
   obtain ⟨u, hu, he⟩ := frame_gained_whole _ parts invp (c, cl) hm ha e hk ⟨hmk, hv⟩
   exact ⟨_, u, Joint.frame_out_of_client _ ticked ms parts hr hc c cl hm ha, hu, he⟩
+
+/-- **… the complete state, with its values** (`Proofs/ClientVals.lean`; over ALL histories, across
+both models).  After any history (entity identifiers not reused, a stopped server sees a frame
+before a restart, no pre-spawn mappings; replication rules for distinct components), in the
+next frame of a running server, for every client and every entity the server starts to track
+for it in that frame (`runBumped` and not tracked after `collect_despawns`: exactly the case of a
+client that was just authorized — it tracks nothing yet, `C07_history_complete_state` — of a
+spawn, and of an entity that became visible): an update message is sent to the client, and the
+client model that was fed the session's update messages so far and applies this one has, for
+every plain (not entity-valued) replicated component of the entity, exactly the server's
+current value. -/
+theorem C07_history_complete_state_values (s0 : Server) (hw : s0.world = []) (hc0 : s0.clients = []) (hb : s0.removalBuf = [])
+    (hrates : (s0.rates.map (·.1)).Nodup)
+    (ops : List Joint.Op) (hl : Joint.Legal2 { srv := s0 } ops) (ticked : Bool) (ms : Nat)
+    (hr : (Joint.run { srv := s0 } ops).1.srv.running = true)
+    (z : Nat × Cli) (hz : z ∈ (Joint.run { srv := s0 } ops).1.srv.clients)
+    (e : Nat)
+    (hnew : e ∉ keys (runCl1 (preRun (Joint.run { srv := s0 } ops).1.srv ticked ms) (preG (Joint.run { srv := s0 } ops).1.srv ms z.2)))
+    (hbump : e ∈ runBumped (preRun (Joint.run { srv := s0 } ops).1.srv ticked ms)
+      ((preRun (Joint.run { srv := s0 } ops).1.srv ticked ms).now + 1) (preG (Joint.run { srv := s0 } ops).1.srv ms z.2))
+    (ent : SEnt) (hwld : (e, ent) ∈ (Joint.run { srv := s0 } ops).1.srv.world) :
+    ∃ u, (runClient (preRun (Joint.run { srv := s0 } ops).1.srv ticked ms)
+        ((preRun (Joint.run { srv := s0 } ops).1.srv ticked ms).now + 1) (preG (Joint.run { srv := s0 } ops).1.srv ms z.2)).2.update = some u ∧
+      ∀ k r comp, (k, r, comp) ∈ present (Joint.run { srv := s0 } ops).1.srv ent →
+        (Joint.replay ((Joint.runLog { srv := s0 } (fun _ => []) ops).2 z.1)).entityComps.contains k = false →
+        Cli.valOn (Cli.applyUpdate (Joint.replay ((Joint.runLog { srv := s0 } (fun _ => []) ops).2 z.1)) u) e k = some comp.val :=
+  Joint.history_new_entity_values s0 hw hc0 hb hrates ops hl ticked ms hr z hz e hnew hbump ent hwld
 
 end Replicon.C07
